@@ -249,8 +249,12 @@ func closeConc(p *Plan, d *Driver, cs *concState) {
 	if d.Viol != nil {
 		return
 	}
-	// reopen: contents as they were
-	if err := d.Open(); err != nil {
+	// reopen: contents as they were (quiet configuration: this part is about what
+	// Close left on disk, not about concurrency in the reopened store)
+	quiet := d.Cfg
+	quiet.GCMs = 0
+	quiet.Flusher = false
+	if err := d.OpenWith(quiet); err != nil {
 		d.fail("close/reopen-error", "reopen after Close failed: %v", err)
 		return
 	}
